@@ -308,17 +308,17 @@ SIZES_MORE = [(25, 4), (1, 100), (99, 1), (49, 2), (50, 2), (64, 64), (3, 300), 
               (2, 49), (2, 50), (10, 9), (200, 1), (1, 512)]
 
 
-def m0_operator(mesh, k, cache_dir=None):
+def m0_operator(mesh, k, cache_dir=None, problem=None):
     """InitialOperator with the token leaf; the constructor of the Circle needs quadpy (licence) for a member the
     assembly never uses, so it is bypassed there."""
     from src.initial_potential import InitialOperator
     try:
         with silence_stdout():
-            M0 = InitialOperator(mesh, None, initial_mesh=None, cache_dir=cache_dir)
+            M0 = InitialOperator(mesh, None, initial_mesh=None, cache_dir=cache_dir, problem=problem)
     except Exception:
         M0 = InitialOperator.__new__(InitialOperator)
         M0.u0, M0.bdr_mesh, M0.initial_mesh, M0.cache_dir = None, mesh, None, cache_dir
-        M0.problem = str(mesh.gamma_space)
+        M0.problem = str(mesh.gamma_space) if problem is None else problem
     M0._tok_k = k
     return M0
 
@@ -589,11 +589,14 @@ def run_vec_history(res, rng, tmp, hist_id, n_events):
     for ci, curve in enumerate(('UnitSquare', 'LShape')):
         mesh, elems = make_mesh(curve, 1, rng, 5)
         lists = [sublists(rng, elems, n, 0)[0] for n in (1, 4, 9, 9)] + [elems, elems[:-1], elems[1:], list(reversed(elems))]
-        M0 = m0_operator(mesh, ci, cache_dir)
-        ctx.append((ci, curve, mesh, lists, M0))
+        # two problems (different data u0 = different token) on the same curve and mesh share the directory, as the
+        # runs of example.py for Smooth and Singular on the unit square do
+        for k in (ci, ci + 2):
+            M0 = m0_operator(mesh, k, cache_dir, problem='c%dp%d' % (ci, k))
+            ctx.append((ci, k, curve, mesh, lists, M0))
     events, outs = [], []
     for ev in range(n_events):
-        ci, curve, mesh, lists, M0 = ctx[rng.randrange(len(ctx))]
+        ci, k, curve, mesh, lists, M0 = ctx[rng.randrange(len(ctx))]
         es = lists[rng.randrange(len(lists))]
         fn = vec_file(cache_dir, mesh.gamma_space, M0.problem, es)
         r = rng.random()
@@ -609,17 +612,18 @@ def run_vec_history(res, rng, tmp, hist_id, n_events):
                 res.violation('C17:cache-call-raises:vector', dict(history=hist_id, event=ev, curve=curve,
                                                                    state_before=file_state(fn), error=repr(exc)[:300]))
                 got, chunk = None, 1
-            events.append('call@%d@%d@%d@%d@%d@%s@%s@%s@-' % (ci, ci, use_mp, w, chunk, rng.choice('fr'), sv, enc_elems(es)))
+            events.append('call@%d@%d@%d@%d@%d@%s@%s@%s@-' % (ci, k, use_mp, w, chunk, rng.choice('fr'), sv, enc_elems(es)))
             outs.append('ret:%s:%s' % (show_vec(got), file_state(fn)))
             want = np.array([M0.linform(e)[0] for e in es], dtype=np.float64)
             res.count(('vhist', hist_id, ev), True)
             if got is not None and not bits_equal(np.asarray(got, dtype=np.float64).reshape(len(es)), want):
                 res.violation('C17:cache-changes-result:vector',
-                              dict(history=hist_id, event=ev, curve=curve, got=show_vec(got)[:300], want=show_vec(want)[:300]))
+                              dict(history=hist_id, event=ev, curve=curve, problem=M0.problem, events_so_far=events[-12:],
+                                   got=show_vec(got)[:300], want=show_vec(want)[:300]))
         else:
             kind = rng.choice(DAMAGE)
             applied = damage(fn, kind, rng)
-            events.append('%s@%d@%s@-' % ({'rm': 'rm', 'garble': 'garble'}.get(kind, 'trunc'), ci, enc_elems(es)))
+            events.append('%s@%d@%d@%s@-' % ({'rm': 'rm', 'garble': 'garble'}.get(kind, 'trunc'), ci, k, enc_elems(es)))
             outs.append(file_state(fn))
             res.count(('vhist', hist_id, ev), applied is not None)
             res.bump('vhist_damage_%s%s' % (kind, '' if applied else '_nofile'))
@@ -886,6 +890,25 @@ def search(res, tier, boost=False):
             for kind in DAMAGE:
                 damage(fn, kind, rng)
                 cmpv('cache-after-' + kind, lambda: M0.linform_vector(es, use_mp=False))
+
+            # a second problem (other data u0, other `problem` name) on the same curve, mesh and element list against the
+            # same directory (example.py: Smooth and Singular on the unit square both use 'data'): no shared entry
+            u0b = lambda y: np.cos(y[0] + 2 * y[1])  # noqa: E731
+            M0b = InitialOperator(mesh, u0b, initial_mesh=UnitSquareBoundaryRefined, cache_dir=cache_dir, problem='OtherData')
+            es2 = es[:4]
+            first = M0.linform_vector(es2, use_mp=False)
+            second = guarded(res, 'C17:real-leaf-raises:vector:two-problems', dict(n=len(es2)),
+                             lambda: M0b.linform_vector(es2, use_mp=False))
+            want_b = np.array([M0b.linform(e)[0] for e in es2], dtype=np.float64)
+            res.count(('m0', 'two-problems'), True)
+            if second is not None and not bits_equal(np.asarray(second, dtype=np.float64).reshape(len(es2)), want_b):
+                res.violation('C17:cache-changes-result:vector:two-problems-one-directory',
+                              dict(curve='UnitSquare', n=len(es2), files=sorted(os.listdir(cache_dir)),
+                                   history=['InitialOperator(problem=default, u0=sin(y0) y1 + 1).linform_vector(es)',
+                                            "InitialOperator(problem='OtherData', u0=cos(y0 + 2 y1)).linform_vector(es)"],
+                                   second_equals_first=bool(bits_equal(np.asarray(second, dtype=np.float64),
+                                                                       np.asarray(first, dtype=np.float64))),
+                                   got=[float(v) for v in second], want=[float(v) for v in want_b]))
 
         # estimator caches (token leaf `weighted_l2`): serial = pool = hit; damaged file ignored
         cache_dir = tempfile.mkdtemp(prefix='est_', dir=tmp)
